@@ -11,7 +11,8 @@ every subroutine becomes a flat list of abstract instructions over reference-cou
   ["allocrc", rc]       allocate(rc)
   ["use", v]            any other statement mentioning the data pointer v
   ["br", target, lits]  if the conjunction of literals [[name, polarity], ...] is FALSE jump to target
-  ["jmp", target]       goto / end of an if-branch / loop back edge
+  ["jmp", target]       goto / end of an if-branch
+  ["again", target]     end of a do-loop body: either back to target (next iteration) or on (loop ends)
   ["setphase", p]       dagrt_state%dagrt_next_phase = dagrt_phase_p
   ["call", sub]         call of a phase function
   ["stop"]              stop
@@ -196,29 +197,13 @@ def flatten(lines, fvec, frc, warnings, subname):
             stack.append(["do", len(ins) - 1])
             continue
         if s in ("end do", "enddo"):
-            # the loop is unrolled to 0, 1 or 2 iterations: [br end] body [br end] body' end:
+            # [br end if the loop is not entered] body [again: back to the body or fall through] end:
             top = stack.pop()
             head = top[1]
-            body = [list(i) for i in ins[head + 1:]]
-            off = len(body) + 1
-            counter[0] += 1
-            again = "?%d:loop-again" % counter[0]
-            flags.add(again)
-            ins.append(["br", None, [[again, True]]])
-            second = len(ins) - 1
-            for i in body:
-                j = list(i)
-                if j[0] in ("br", "jmp") and j[1] is not None and j[1] > head + 1:
-                    j[1] = j[1] + off
-                if j[0] == "br":
-                    j[2] = [list(l) for l in j[2]]
-                ins.append(j)
-            # pending goto-999 jumps inside the copied body
-            for k in range(second + 1, len(ins)):
-                if ins[k][0] == "jmp" and ins[k][1] is None:
-                    goto999.append(k)
+            # a body that only uses pointers is idempotent for the heap model: one pass stands for any number
+            if any(i[0] not in ("use", "br", "jmp") for i in ins[head + 1:]):
+                ins.append(["again", head + 2])
             ins[head][1] = len(ins) + 1
-            ins[second][1] = len(ins) + 1
             continue
         if re.match(r"goto 999", s):
             ins.append(["jmp", None])
